@@ -41,13 +41,6 @@ Definition fits (dt : option dtype) (s : vshape) : Prop :=
 Definition well_typed_vec (v : vec) : Prop :=
   forall s, In (Some s) (vdata v) -> fits (vdtype v) s.
 
-(* the one input on which the formatter is still partial: an int element of a FLOAT column that
-   is beyond the float range (Vector([1.5, 10**400]) is a legal <float> vector; f"{v:.1f}"
-   converts the int with float(v), which raises OverflowError).  [float_ints_in_range] excludes it. *)
-Definition float_column (dt : option dtype) : bool :=
-  match dt with Some d => kind_eqb (dkind d) KFloat | None => false end.
-Definition float_ints_in_range (v : vec) : Prop :=
-  float_column (vdtype v) = true -> ~ In (Some (VIntLike true)) (vdata v).
 (* a column has a name to show: not None and not text-empty *)
 Definition has_shown_name (v : vec) : Prop :=
   exists o, vname v = Some o /\ n_text_empty o = false.
